@@ -340,3 +340,60 @@ Proof.
     destruct (IH _ _ _ _ _ E2) as (A2 & B2 & C2). split; [congruence|]. split; [|congruence].
     destruct B2 as [B2|B2]; [rewrite B2; exact B1|right; exact B2].
 Qed.
+
+(* ---- a generic way to push a relation through the per-message receive loop ---- *)
+Section RecvMsgsRel.
+  Variable R : conn -> conn -> Prop.
+  Hypothesis Rrefl : forall c, R c c.
+  Hypothesis Rtrans : forall a b c, R a b -> R b c -> R a c.
+  Hypothesis Rbf : forall c bf, R c (c <| c_bf_msg := bf |>).
+  Hypothesis Rapp : forall c s p, R c (recv_app c s p).
+  Hypothesis Rfrag : forall c now s p c' o, recv_fragment c now s p = (c', o) -> R c c'.
+  Hypothesis Rdisc : forall c, R c (c <| c_status := DISCONNECTING |>).
+  Hypothesis Rhs : forall c ty o c' os, recv_handshake c ty o = (c', os) -> R c c'.
+
+  Lemma recv_msgs_rel ms : forall c now orcs c' o, recv_msgs c now ms orcs = (c', o) -> R c c'.
+  Proof.
+    induction ms as [|m r IH]; intros c now orcs c' o E; cbn [recv_msgs] in E.
+    - injection E as <- <-. apply Rrefl.
+    - destruct (bf_insert (c_bf_msg c) (w_seq m)) as [bf|]; [|eapply IH; eassumption].
+      match type of E with context [match ?x with (_, _) => _ end] => destruct x as [[c1 o1] orcs'] eqn:E1 end.
+      assert (H1 : R c c1).
+      { eapply Rtrans; [apply (Rbf c bf)|]. destruct (w_type m).
+        - injection E1 as <- <- <-. apply Rrefl.
+        - destruct (recv_handshake _ CLIENT_HELLO _) as [c'' o''] eqn:Eh. injection E1 as <- <- <-. eapply Rhs; eassumption.
+        - destruct (recv_handshake _ SERVER_HELLO _) as [c'' o''] eqn:Eh. injection E1 as <- <- <-. eapply Rhs; eassumption.
+        - destruct (recv_handshake _ CHALLENGE_RESP _) as [c'' o''] eqn:Eh. injection E1 as <- <- <-. eapply Rhs; eassumption.
+        - injection E1 as <- <- <-. apply Rrefl.
+        - injection E1 as <- <- <-. apply Rdisc.
+        - injection E1 as <- <- <-. apply Rapp.
+        - destruct (recv_fragment _ now (w_seq m) (w_payload m)) as [c'' o''] eqn:Ef. injection E1 as <- <- <-.
+          eapply Rfrag; eassumption. }
+      destruct (raised o1); [injection E as <- <-; exact H1|].
+      destruct (recv_msgs c1 now r orcs') as [c2 o2] eqn:E2. injection E as <- <-.
+      eapply Rtrans; [exact H1|eapply IH; eassumption].
+  Qed.
+End RecvMsgsRel.
+
+(* a relation given by equality of one projection *)
+Definition keeps {A} (g : conn -> A) (c c' : conn) : Prop := g c' = g c.
+Lemma keeps_refl {A} (g : conn -> A) c : keeps g c c. Proof. reflexivity. Qed.
+Lemma keeps_trans {A} (g : conn -> A) a b c : keeps g a b -> keeps g b c -> keeps g a c.
+Proof. unfold keeps. congruence. Qed.
+
+Lemma recv_handshake_keeps {A} (g : conn -> A) :
+  (forall c v, g (c <| c_token := v |>) = g c) -> (forall c v, g (c <| c_key := v |>) = g c) ->
+  (forall c v, g (c <| c_status := v |>) = g c) -> (forall c v, g (c <| c_hello_sent := v |>) = g c) ->
+  (forall c ty p r k, g (send_type c ty p r k) = g c) ->
+  forall c ty o c' os, recv_handshake c ty o = (c', os) -> keeps g c c'.
+Proof.
+  intros Gt Gk Gs Gh Gsend c ty o c' os E. unfold recv_handshake, keeps in *.
+  destruct ty, (c_server c); try (injection E as <- <-; reflexivity).
+  - destruct (negb _); [injection E as <- <-; reflexivity|].
+    destruct (negb _); injection E as <- <-; [reflexivity|]. rewrite Gsend, Gs, Gk, Gt. reflexivity.
+  - destruct (o_parse o =? 6); [injection E as <- <-; apply Gs|].
+    destruct (negb _); injection E as <- <-; [reflexivity|]. rewrite Gh, Gs, Gsend, Gk, Gt. reflexivity.
+  - destruct (negb _); [injection E as <- <-; reflexivity|].
+    destruct (o_temp_token o) as [t|]; [|injection E as <- <-; reflexivity].
+    destruct (t =? o_token o); injection E as <- <-; [apply Gs|reflexivity].
+Qed.
